@@ -203,107 +203,217 @@ def _noise_block(d: tr.Dispatch) -> Optional[ast.If]:
     return None
 
 
+class _LQ:
+    """stand-in for a cirq line qubit"""
+    _sa_model = True
+
+    def __init__(self, x):
+        self.x = x
+
+    def __repr__(self):
+        return f"q{self.x}"
+
+
+class _Op:
+    """one operation appended to the cirq circuit: what (a gate description or a channel) on which qubits"""
+    _sa_model = True
+
+    def __init__(self, what, qubits, kw=None):
+        self.what, self.qubits, self.kw = what, tuple(qubits), dict(kw or {})
+
+
+class _Fac:
+    """stand-in for a cirq gate / channel factory: called with qubits it is an operation, called with anything else (an angle, exponent=...) or asked for
+    .controlled(n) it is another factory"""
+    _sa_model = True
+
+    def __init__(self, desc):
+        self.desc = tuple(desc)
+
+    def __call__(self, *a, **k):
+        if a and all(isinstance(x, _LQ) for x in a):
+            return _Op(self.desc, a, k)
+        return _Fac(self.desc + (("with", a, tuple(sorted(k.items()))),))
+
+    def controlled(self, n=1):
+        return _Fac(self.desc + (("controlled", n),))
+
+    def on_each(self, qs):
+        return [_Op(self.desc, (q,)) for q in qs]
+
+
+class _CircRec:
+    """stand-in for cirq.Circuit: records what is appended, in order"""
+    _sa_model = True
+
+    def __init__(self, *a, **k):
+        self.ops = []
+
+    def _take(self, x):
+        if isinstance(x, _Op):
+            self.ops.append(x)
+        elif isinstance(x, (list, tuple)):
+            for y in x:
+                self._take(y)
+        else:
+            raise Undecidable(f"cirq circuit receives {x!r:.60}")
+
+    def append(self, x):
+        self._take(x)
+
+    def __iadd__(self, x):
+        self._take(x)
+        return self
+    __add__ = __iadd__
+
+
+class _LineQubit:
+    _sa_model = True
+
+    @staticmethod
+    def range(n):
+        return [_LQ(i) for i in range(int(n))]
+
+
+class _CirqMod:
+    """the part of the cirq API the circuit writer uses"""
+    _sa_model = True
+    Circuit = _CircRec
+    LineQubit = _LineQubit()
+    I = _Fac(("I",))
+
+    @staticmethod
+    def asymmetric_depolarize(*a, **k):
+        if k or len(a) != 3:
+            raise Undecidable("asymmetric_depolarize: expected (p_x, p_y, p_z)")
+        return _Fac((("channel", "pauli", tuple(a)),))
+
+    @staticmethod
+    def depolarize(p, n_qubits=None):
+        return _Fac((("channel", "depol", (p, n_qubits)),))
+
+
+class _SrcGate:
+    _sa_model = True
+
+    def __init__(self, name, target, control=None, parameter=""):
+        self.name, self.target, self.control, self.parameter = name, list(target), (None if control is None else list(control)), parameter
+
+
+class _SrcCircuit:
+    _sa_model = True
+
+    def __init__(self, gates, width):
+        self._gates, self.width = list(gates), width
+
+
+class _NoiseM:
+    _sa_model = True
+
+    def __init__(self, errors):
+        self._quantum_errors = {k: list(v) for k, v in errors.items()}
+        self.noisy_gates = set(errors)
+
+    def __bool__(self):
+        return True
+
+
 def check_cirq_channel_block(idx: Index, rep: Report):
+    """translate_c_to_cirq folded as a whole against a recording stand-in for the cirq API, on circuits and noise models chosen so that every way of getting the
+    channel qubits wrong shows: controlled gates followed by uncontrolled noisy ones (state carried over from the previous gate), several controls (a CNOT the
+    writer re-dispatches), two targets, both kinds of error on one gate, noisy and noise-free gates interleaved, no model at all.  After the operation of
+    each source gate - and before the next one - the recorded channels must be exactly: for every registered error in registration order, the Pauli channel
+    (p_x, p_y, p_z) once on every qubit the gate touches, or ONE depolarising channel on all k touched qubits with cirq rate p (4^k - 1) / 4^k."""
     rule = "K5.channel-block"
     f = idx.function(f"{CIRQ_T}::translate_c_to_cirq")
-    d = tr.extract_writer(f)
-    if d is None:
-        raise AnalysisError("translate_c_to_cirq: dispatch not recognised")
-    blk = _noise_block(d)
-    if blk is None:
-        rep.violation(rule, f, d.loop, text="channel block after the gate dispatch, inside the gate loop",
-                      what="noise channels are inserted right after each noisy gate, in gate order",
-                      reason="no `if noise_model and gate.name in noise_model.noisy_gates` block follows the dispatch chain inside the gate loop")
-        return
-    rep.ok(rule, f, blk, text="channel block after the gate dispatch, inside the gate loop", what="noise channels are inserted right after each noisy gate, in gate order")
-    t = norm(blk.test)
-    # the key is the name the user gave the gate (gate.name), not the translator's internal dispatch alias: a multi-controlled CNOT is
-    # dispatched as CX but still carries the channels registered for CNOT
-    keyed = [f"{d.var}.name in noise_model.noisy_gates"]
-    rep.decide(any(k in t for k in keyed) and t.startswith("noise_model and"), rule, f, blk, text=f"guard: {t}",
-               what="channels are applied iff a model is given and the gate's own name (as the user wrote it) carries an error",
-               reason=f"guard is `{t}`: it does not test the gate's own name" + (f" but the dispatch alias {d.subject}, which differs for re-dispatched multi-controlled gates" if d.subject in t else ""))
-    loops = [n for n in blk.body if isinstance(n, ast.For)]
-    ok = len(loops) == 1 and norm(loops[0].iter) == f"noise_model._quantum_errors[{d.var}.name]" and \
-        not any(isinstance(x, (ast.Break, ast.Continue)) for x in ast.walk(loops[0]))
-    rep.decide(ok, rule, f, loops[0] if loops else blk, text="for nt, np in noise_model._quantum_errors[name]",
-               what="every error registered for the gate's name is applied (both kinds when both are set)",
-               reason=f"iteration is {norm(loops[0].iter) if loops else 'missing'}")
-    if not loops:
-        return
-    loop = loops[0]
-    if not (isinstance(loop.target, ast.Tuple) and len(loop.target.elts) == 2):
-        raise AnalysisError("noise loop target is not (kind, params)")
-    kind_v, par_v = norm(loop.target.elts[0]), norm(loop.target.elts[1])
-    branches = {}
-    cur = loop.body[0] if loop.body and isinstance(loop.body[0], ast.If) else None
-    while isinstance(cur, ast.If):
-        tt = cur.test
-        if isinstance(tt, ast.Compare) and norm(tt.left) == kind_v and isinstance(tt.comparators[0], ast.Constant):
-            branches[tt.comparators[0].value] = cur
-        cur = cur.orelse[0] if len(cur.orelse) == 1 and isinstance(cur.orelse[0], ast.If) else None
-    for kind in ("pauli", "depol"):
-        if kind not in branches:
-            rep.violation(rule, f, loop, text=f"branch for '{kind}'", what=f"{kind} errors are translated", reason=f"no branch for noise kind '{kind}'")
-    # ---- pauli
-    if "pauli" in branches:
-        b = branches["pauli"]
-        ctor = [c for c in ast.walk(b) if isinstance(c, ast.Call) and norm(c.func).endswith("asymmetric_depolarize")]
-        ok = len(ctor) == 1 and [norm(a) for a in ctor[0].args] == [f"{par_v}[0]", f"{par_v}[1]", f"{par_v}[2]"] and not ctor[0].keywords
-        rep.decide(ok, "K9.channel-rates", f, ctor[0] if ctor else b, text="asymmetric_depolarize(p[0], p[1], p[2])",
-                   what="the Pauli channel receives (p_x, p_y, p_z) in the order of the specification",
-                   reason=f"channel built as {norm(ctor[0]) if ctor else '?'}")
-        body_txt = [norm(s) for s in b.body]
-        tgt = any(f"for t in {d.var}.target" in s and "depo(" in s for s in body_txt)
-        ctl_if = [s for s in b.body if isinstance(s, ast.If) and norm(s.test) == f"{d.var}.control is not None"]
-        ctl = bool(ctl_if) and any(f"for c in {d.var}.control" in norm(s) and "depo(" in norm(s) for s in ctl_if[0].body)
-        rep.decide(tgt, rule, f, b, text="pauli channel on every target", what="the Pauli channel acts on every target qubit of the gate",
-                   reason="pauli channel is not applied over gate.target")
-        rep.decide(ctl, rule, f, b, text="pauli channel on every control", what="the Pauli channel acts on every control qubit of the gate",
-                   reason="pauli channel is not applied over gate.control")
-    # ---- depol
-    if "depol" in branches:
-        b = branches["depol"]
-        stm = {norm(s.targets[0]): s for s in b.body if isinstance(s, ast.Assign) and len(s.targets) == 1}
-        lst_name = None
-        for k, s in stm.items():
-            if isinstance(s.value, ast.ListComp) and f"{d.var}.target" in norm(s.value):
-                lst_name = k
-        ok_t = lst_name is not None and norm(stm[lst_name].value.generators[0].iter) == f"{d.var}.target" and not stm[lst_name].value.generators[0].ifs
-        ctl_if = [s for s in b.body if isinstance(s, ast.If) and norm(s.test) == f"{d.var}.control is not None"]
-        ok_c = bool(ctl_if) and lst_name is not None and any(isinstance(s, ast.AugAssign) and norm(s.target) == lst_name and f"{d.var}.control" in norm(s.value) and
-                                                            isinstance(s.value, ast.ListComp) and norm(s.value.generators[0].iter) == f"{d.var}.control"
-                                                            for s in ctl_if[0].body)
-        rep.decide(ok_t and ok_c, rule, f, b, text="depolarising channel over targets + controls",
-                   what="the depolarising channel acts jointly on every target and every control qubit of the gate",
-                   reason="qubit list of the depolarising channel does not cover all targets and controls")
-        size_name = None
-        for k, s in stm.items():
-            if lst_name and norm(s.value) == f"len({lst_name})":
-                size_name = k
-        ctor = [c for c in ast.walk(b) if isinstance(c, ast.Call) and norm(c.func).endswith("cirq.depolarize")]
-        p, k = sp.Symbol("p", positive=True), sp.Symbol("k", positive=True, integer=True)
-        ok = False
-        why = "depolarize(...) call not found"
-        if len(ctor) == 1 and len(ctor[0].args) == 2 and size_name:
-            env = {par_v: p, size_name: k}
-            try:
-                rate = symx.to_sympy(ctor[0].args[0], env)
-                nq = symx.to_sympy(ctor[0].args[1], env)
-                ok = symx.equal(rate, p * (4 ** k - 1) / 4 ** k) and symx.equal(nq, k)
-                why = f"rate = {norm(ctor[0].args[0])}, n_qubits = {norm(ctor[0].args[1])}"
-            except symx.Untranslatable as e:
-                why = f"not understood: {e}"
-        rep.decide(ok, "K9.channel-rates", f, ctor[0] if ctor else b, text="depolarize(p*(4^k-1)/4^k, k)",
-                   what="the k-qubit depolarising channel with Tangelo rate p is cirq.depolarize(p*(4^k-1)/4^k, n_qubits=k), k = targets + controls",
-                   reason=why)
-        appl = [c for c in ast.walk(b) if isinstance(c, ast.Call) and isinstance(c.func, ast.Name) and c.func.id == "depo"]
-        ok = bool(appl) and lst_name is not None and norm(appl[0]) == f"depo(*{lst_name})"
-        rep.decide(ok, rule, f, appl[0] if appl else b, text="depo(*qubits)", what="the channel is applied to exactly the collected qubits",
-                   reason=f"applied as {norm(appl[0]) if appl else '?'}")
-    # qubits of the channel are the line qubits of the gate's own indices
-    ok = all(("qubit_list[t]" in full(b) and "qubit_list[c]" in full(b)) for b in branches.values())
-    rep.decide(ok, rule, f, blk, text="channel qubits = qubit_list[index]", what="channels act on the same line qubits as the gate", reason="channel qubits are not taken from qubit_list")
+    from ..rules.circuitsem import make_folder
+    px, py, pz, p, p2 = sp.symbols("p_x p_y p_z p p2", positive=True)
+    G = _SrcGate
+    cases = [
+        ("an uncontrolled noisy gate after a controlled one", [G("H", [0]), G("CNOT", [1], [0]), G("X", [2]), G("RZ", [1], None, 0.3)], 3,
+         {"X": [("pauli", [px, py, pz]), ("depol", p)], "RZ": [("depol", p2)]}),
+        ("controlled gates with one, two and three controls", [G("CNOT", [2], [0, 1]), G("CRZ", [0], [3], 0.2), G("CX", [1], [0, 2, 3]), G("CNOT", [3], [2])], 4,
+         {"CNOT": [("depol", p)], "CRZ": [("pauli", [px, py, pz])], "CX": [("pauli", [px, py, pz]), ("depol", p2)]}),
+        ("two-target gates, with and without controls", [G("SWAP", [0, 2]), G("CSWAP", [1, 2], [0]), G("XX", [1, 0], None, 0.4), G("H", [2])], 3,
+         {"SWAP": [("depol", p)], "CSWAP": [("depol", p), ("pauli", [px, py, pz])], "XX": [("pauli", [px, py, pz])]}),
+        ("noise on some gates only, measurement in between", [G("H", [0]), G("MEASURE", [0]), G("X", [1]), G("H", [1]), G("CZ", [1], [0])], 2,
+         {"H": [("pauli", [px, py, pz])], "CZ": [("depol", p)]}),
+        ("no noise model", [G("H", [0]), G("CNOT", [1], [0]), G("X", [1])], 2, None),
+    ]
+    n = 0
+    for label, gates, width, errors in cases:
+        fo = make_folder(idx, CIRQ_T)
+        fo.env["cirq"] = _CirqMod()
+        fo.ctors = dict(fo.ctors or {})
+        fo.ctors["get_cirq_gates"] = lambda a, k: _AnyGate()
+        try:
+            out = fo.run_function(f.node, {"source_circuit": _SrcCircuit(gates, width), "noise_model": (None if errors is None else _NoiseM(errors)), "save_measurements": False})
+        except Undecidable as e:
+            raise AnalysisError(f"translate_c_to_cirq not foldable ({label}): {e}")
+        except Raised as e:
+            n += 1
+            rep.violation(rule, f, f.node, text=label, what="every supported gate is translated, with or without a noise model", reason=f"raises {e.exc_type}")
+            continue
+        if not isinstance(out, _CircRec):
+            raise AnalysisError(f"translate_c_to_cirq folded to {out!r:.60}")
+        ops = [o for o in out.ops if o.what != ("I",)]
+        bad, bad_rate = [], []
+        pos = 0
+        for g in gates:
+            if pos >= len(ops) or (ops[pos].what and ops[pos].what[0] and isinstance(ops[pos].what[0], tuple) and ops[pos].what[0][0] == "channel"):
+                bad.append(f"{g.name}: no gate operation where one is expected")
+                break
+            touched = sorted(g.target + (g.control or []))
+            if sorted(q.x for q in ops[pos].qubits) != touched:
+                bad.append(f"{g.name} on {touched}: translated onto qubits {[q.x for q in ops[pos].qubits]}")
+            pos += 1
+            chans = []
+            while pos < len(ops) and isinstance(ops[pos].what[0], tuple) and ops[pos].what[0][0] == "channel":
+                chans.append(ops[pos])
+                pos += 1
+            want = [] if errors is None else list(errors.get(g.name, []))
+            i = 0
+            for kind, par in want:
+                if kind == "pauli":
+                    got = chans[i:i + len(touched)]
+                    i += len(touched)
+                    okp = len(got) == len(touched) and all(c.what[0][1] == "pauli" and len(c.qubits) == 1 and
+                                                         all(sp.simplify(sp.sympify(x) - y) == 0 for x, y in zip(c.what[0][2], par)) for c in got) and \
+                        sorted(c.qubits[0].x for c in got) == touched
+                    if not okp:
+                        bad.append(f"{g.name} on {touched}: Pauli channel on {[[q.x for q in c.qubits] for c in got]}")
+                else:
+                    got = chans[i:i + 1]
+                    i += 1
+                    k = len(touched)
+                    if not (len(got) == 1 and got[0].what[0][1] == "depol" and sorted(q.x for q in got[0].qubits) == touched):
+                        bad.append(f"{g.name} on {touched}: depolarising channel on {[[q.x for q in c.qubits] for c in got]}")
+                    else:
+                        rate, nq = got[0].what[0][2]
+                        if nq != k or sp.simplify(sp.sympify(rate) - par * (4 ** k - 1) / sp.Integer(4) ** k) != 0:
+                            bad_rate.append(f"{g.name} on {touched}: depolarize({rate}, {nq}), expected ({par}*(4^{k} - 1)/4^{k}, {k})")
+            if i != len(chans):
+                bad.append(f"{g.name} on {touched}: {len(chans)} channel operations, {i} expected "
+                           f"({[(c.what[0][1], [q.x for q in c.qubits]) for c in chans]})")
+        if pos != len(ops) and not bad:
+            bad.append(f"{len(ops) - pos} operations after the last gate")
+        n += 1
+        rep.decide(not bad, rule, f, f.node, text=f"{label}: {len(gates)} gates, {len(ops)} recorded operations",
+                   what="after each noisy gate, and before the next gate, every registered error is applied in registration order to exactly the qubits the gate touches "
+                        "(targets and controls): a Pauli channel on each of them, one joint depolarising channel on all of them; nothing without a model",
+                   reason="; ".join(bad[:3]))
+        rep.decide(not bad_rate, "K9.channel-rates", f, f.node, text=f"{label}: rates of the depolarising channels",
+                   what="the k-qubit depolarising channel with Tangelo rate p is cirq.depolarize(p (4^k - 1) / 4^k, n_qubits = k), k = targets + controls; the Pauli channel "
+                        "receives (p_x, p_y, p_z) in the order of the specification", reason="; ".join(bad_rate[:2]))
+    rep.floor("noisy circuits folded through the cirq writer", n, 5)
+
+
+class _AnyGate:
+    """stand-in for the gate table of the cirq writer: any name gives a gate factory"""
+    _sa_model = True
+
+    def __getitem__(self, name):
+        return _Fac((name,))
 
 
 def _enclosing_tests(func: FunctionInfo, node: ast.AST) -> List[str]:
